@@ -2,6 +2,7 @@ import GrinVerif.Drv.Common
 import GrinVerif.Model.Pow
 import GrinVerif.Model.PowSpec
 import GrinVerif.Model.PowPack
+import GrinVerif.Model.PowSelect
 /-! Driver glue for the `pow` domain (line protocol handler), property C05.
 
 ops (see harness/src/bin/pow.rs):
@@ -11,6 +12,7 @@ ops (see harness/src/bin/pow.rs):
 * `verify <variant> eb proofsize ctxps k0 k1 k2 k3 [nonces] => ok|<err>`: FAIL when accept/reject
   differs from the independent graph oracle, DIFF when only the error kind / transliteration differs
 * `exh <variant> eb proofsize k0 k1 k2 k3 => <one verdict char per ascending tuple>`
+* `select <chain> height eb [avail] => [accepted]|err` (variant selection of `create_pow_context`)
 * `pack w proofsize [nonces] => hex|panic`, `unpack w proofsize <hex> => [nonces]|err`, `diff scale <hashhex> => n`
 -/
 namespace GV.Drv.PowD
@@ -75,9 +77,15 @@ def exhaustive (v : Variant) (eb ps : Nat) (k : Keys) (impl : String) : Verdict 
       let r := verifyOf v P ep t
       let o := oracleAccept v ps (2^eb - 1) ep t
       let ic := implChars.getD i '?'
+      let mAcc := match r with | .ok _ => true | .error _ => false
       let bad := match bad with
         | some b => some b
-        | none => if (ic == 'A') != o then some s!"tuple {showNatList t} oracle={if o then "accept" else "reject"} impl={ic}" else none
+        | none =>
+          if (ic == 'A') != mAcc then
+            some s!"tuple {showNatList t} spec(model)={resChar r} impl={ic}"
+          else if (ic == 'A') != o then
+            some s!"tuple {showNatList t} oracle={if o then "accept" else "reject"} impl={ic}"
+          else none
       (s.push (resChar r), i+1, bad)) ps 0 [] ("", 0, none)
   match bad with
   | some b => .fail b
@@ -116,9 +124,15 @@ def handle (st : St) (args : List String) (impl : String) : St × Verdict :=
     | some v, some eb, some ps, some cps, some a, some b, some c, some d, some ns =>
       let ep := epOf v (mkKeys a b c d) eb
       let r := verifyOf v (mkParams eb ps cps) ep ns
-      -- the oracle speaks about the production configuration ctx.proof_size = proofsize
+      -- accept/reject of the verifier models is proven equal to the specification
+      -- (`Props/C05.lean`, `verify*_iff`), so a deviation there is a spec failure; the
+      -- independent graph oracle (production configuration ctx.proof_size = proofsize) is
+      -- evaluated as well; a different error kind alone is a model disagreement
       let o := oracleAccept v ps (2^eb - 1) ep ns
-      if cps == ps && (impl == "ok") != o then
+      let mAcc := match r with | .ok _ => true | .error _ => false
+      if (impl == "ok") != mAcc then
+        (st, .fail s!"{resName r} (accept/reject proven equal to the simple-cycle specification)")
+      else if cps == ps && (impl == "ok") != o then
         (st, .fail s!"oracle={if o then "accept" else "reject"} model={resName r}")
       else (st, cmpModel (resName r) impl)
     | _, _, _, _, _, _, _, _, _ => (st, .unknown)
@@ -127,6 +141,16 @@ def handle (st : St) (args : List String) (impl : String) : St × Verdict :=
     | some v, some eb, some ps, some a, some b, some c, some d =>
       (st, exhaustive v eb ps (mkKeys a b c d) impl)
     | _, _, _, _, _, _, _ => (st, .unknown)
+  | ["select", chain, h, eb, avail] =>
+    -- `avail` = variants for which the harness holds an accepted proof at this edge_bits; the
+    -- observation is the subset the context returned by `create_pow_context` accepts
+    match ChainType.ofString? chain, nat? h, nat? eb with
+    | some c, some h, some eb =>
+      let av := (((avail.drop 1).dropEnd 1).toString.splitOn ",")
+      match selectVariant c h eb with
+      | none => (st, cmpSpec "err" impl)
+      | some v => (st, cmpSpec (if av.contains v.name then s!"[{v.name}]" else "[]") impl)
+    | _, _, _ => (st, .unknown)
   | ["pack", w, ps, ns] =>
     match nat? w, nat? ps, parseNatList ns with
     | some w, some ps, some ns =>
